@@ -1,6 +1,6 @@
 (* C06 — node in-use accounting matches the registered pipelines. *)
 From Coq Require Import List NArith Arith.
-From Verif Require Import Alist Broker BrokerProofs BrokerExamples.
+From Verif Require Import Alist Broker BrokerProofs BrokerClose BrokerExamples.
 Import ListNotations.
 
 (* after every history (any close-failure oracle) the reference count of every registered node is the number of
@@ -54,6 +54,15 @@ Theorem C06_rpan_spec : forall cf ops ety pid old,
                (filter (fun id => Nat.leb (listing id b) 1) (distinct (p_ids old))).
 Proof. exact rpan_spec. Qed.
 Print Assumptions C06_rpan_spec.
+
+(* no history makes the broker close a node twice: in every history whose RegisterNode calls each bring a new node
+   object, the global log of Close calls (all steps, any close-failure oracle) is duplicate-free *)
+Theorem C06_no_double_close : forall cf ops, NoDup (reg_objs ops) -> NoDup (closed_in cf b0 ops).
+Proof. exact no_double_close. Qed.
+Print Assumptions C06_no_double_close.
+
+Theorem C06_nonvacuous_fresh : NoDup (reg_objs h1) /\ closed_in nocf b0 (h1 ++ [RemovePipelineAndNodes 1%N 2%N; RemovePipelineAndNodes 2%N 1%N; RemovePipelineAndNodes 1%N 1%N]) = [11%N; 12%N; 13%N].
+Proof. exact fresh_history_closes. Qed.
 
 Theorem C06_nonvacuous :
   map (fun kv => (fst kv, nu_rc (snd kv))) (b_nodes (run nocf h1)) = [(1%N, 2%nat); (2%N, 3%nat); (3%N, 3%nat)].
